@@ -181,6 +181,48 @@ pub fn malformed(_cex: &Value) -> Result<String, String> {
       }
     }
   }
+  // SD-JWT VC tokens whose issuer / type identifiers are URLs of any scheme (did:, urn:, data:, mailto:, https with odd parts): the
+  // metadata look-ups answer with an error or a value - they do not panic while building the well-known URL
+  {
+    use async_trait::async_trait;
+    use identity_credential::sd_jwt_vc::resolver::{Error as RErr, Resolver};
+    use identity_credential::sd_jwt_vc::SdJwtVc;
+    struct Nothing;
+    #[async_trait]
+    impl Resolver<Url, Vec<u8>> for Nothing {
+      async fn resolve(&self, input: &Url) -> Result<Vec<u8>, RErr> {
+        Err(RErr::NotFound(input.to_string()))
+      }
+    }
+    #[async_trait]
+    impl Resolver<identity_core::common::StringOrUrl, Vec<u8>> for Nothing {
+      async fn resolve(&self, input: &identity_core::common::StringOrUrl) -> Result<Vec<u8>, RErr> {
+        Err(RErr::NotFound(input.to_string()))
+      }
+    }
+    #[async_trait]
+    impl Resolver<Url, serde_json::Value> for Nothing {
+      async fn resolve(&self, input: &Url) -> Result<serde_json::Value, RErr> {
+        Err(RErr::NotFound(input.to_string()))
+      }
+    }
+    for iss in ["https://issuer.example", "https://issuer.example/tenant/1", "did:example:123", "urn:uuid:6e8bc430-9c3a-11d9-9669-0800200c9a66", "mailto:a@b.example", "data:text/plain,x", "file:///etc/x", "http://[::1]:8080/p", "https://user:pw@issuer.example:444/a?b#c"] {
+      for vct in ["https://type.example/t", "did:example:type", "urn:x:y", "plain-name"] {
+        let header = identity_jose::jwu::encode_b64(br#"{"alg":"EdDSA","typ":"vc+sd-jwt","kid":"k1"}"#);
+        let claims = identity_jose::jwu::encode_b64(serde_json::json!({"iss": iss, "vct": vct, "iat": 1700000000, "_sd_alg": "sha-256"}).to_string());
+        let token = format!("{header}.{claims}.c2ln~");
+        let Ok(vc) = SdJwtVc::parse(&token) else {
+          continue;
+        };
+        let text = format!("iss {iss} / vct {vct}");
+        probe("SdJwtVc metadata look-ups", text.as_bytes(), &move |_p: &[u8]| {
+          let _ = crate::storage_block_on(vc.issuer_metadata(&Nothing));
+          let _ = crate::storage_block_on(vc.type_metadata(&Nothing));
+          let _ = crate::storage_block_on(vc.issuer_jwk(&Nothing));
+        });
+      }
+    }
+  }
   // JOSE
   let k = crate::jws::key("keyA", None);
   for ser in [crate::jws::Ser::Compact, crate::jws::Ser::Flattened, crate::jws::Ser::General] {
